@@ -67,11 +67,20 @@ type C17Node struct {
 	Host    string
 	MaxConn int      `json:"maxConn"`
 	Tags    []string `json:"tags,optional"`
+	hidden  int      // unexported: conf, mapping and encoding/json skip it
 }
 
 type C17Inner struct {
 	LogLevel string `json:"logLevel,default=info"`
+	secret   string // unexported
 	Port     int
+}
+
+// an anonymous map-typed field next to a field claiming its key: conf reports a conflict
+// (reflect.StructOf cannot build this one: it refuses an embedded map type next to other fields)
+type C17MapClash struct {
+	Key string `json:"c17nodemap"`
+	C17NodeMap
 }
 
 type (
@@ -93,7 +102,7 @@ var C17Named = map[string]reflect.Type{
 	"MyF64": reflect.TypeOf(C17MyF64(0)), "MyBool": reflect.TypeOf(C17MyBool(false)),
 	"Alias": reflect.TypeOf(C17Alias(0)), "Nodes": reflect.TypeOf(C17Nodes(nil)),
 	"NodeMap": reflect.TypeOf(C17NodeMap(nil)), "NodePtr": reflect.TypeOf(C17NodePtr(nil)),
-	"Pair": reflect.TypeOf(C17Pair{}),
+	"Pair": reflect.TypeOf(C17Pair{}), "MapClash": reflect.TypeOf(C17MapClash{}),
 }
 
 var c17Prim = map[string]reflect.Type{
@@ -276,11 +285,16 @@ func C17Describe(t reflect.Type) string {
 	case reflect.Struct:
 		var b strings.Builder
 		b.WriteString("struct{")
+		first := true
 		for i := 0; i < t.NumField(); i++ {
 			f := t.Field(i)
-			if i > 0 {
+			if !f.IsExported() {
+				continue // skipped by conf, mapping and encoding/json alike
+			}
+			if !first {
 				b.WriteString("; ")
 			}
+			first = false
 			if f.Anonymous {
 				b.WriteString("embed ")
 			}
